@@ -346,6 +346,10 @@ def rule_clamp(ctx):
                 ctx.ok('clamp', 'none->max_known', (cb, d[1]), 'default of map_or is max_known')
                 n += 2
                 continue
+            if re.search(r'Option::<.*>::unwrap_or$', e[1]) and len(e[2]) == 2 and is_end(e[2][0]) and is_maxknown(e[2][1]):
+                ctx.violation('clamp', 'take-end-only-if-end<max_known', (cb, d[1]), 'max_height := end.unwrap_or(max_known): an end above the tip is taken unclamped')
+                n += 1
+                continue
             raise Unrecognised('clamp', 'max_height defined by unrecognised combinator %s' % show(e)[:200])
         if d[0] != 'assign':
             raise Unrecognised('clamp', 'max_height defined by unrecognised call %s' % show(e)[:200])
